@@ -1,8 +1,22 @@
 #!/bin/bash
 # Replays the shortest witnesses of the defects that were found on the pinned tree and fixed
 # (regress/*-pinned.replay).  On the repaired tree every one must print "RESULT: no deviation".
+# With --pinned the same witnesses are replayed against a scratch worktree of the pinned commit
+# (b3df11a, removed afterwards): there every one must reproduce (a deviation, or - rr's slot
+# bookkeeping defect corrupts memory - a fatal signal).
 cd "$(dirname "$0")/.."
 rc=0
+if [ "$1" = "--pinned" ]; then
+    wt=/tmp/regress_pinned.$$
+    git -C /repo worktree add --detach $wt b3df11a -q || exit 2
+    for f in regress/*.replay; do
+        out=$(VERIF_REPO=$wt VERIF_BUILD=$wt/_vb bin/replay "$f" 2>&1 | tail -1 | cut -c1-120)
+        echo "$f (pinned tree): $out"
+        case "$out" in *"deviation reproduced"*|CRASH*) ;; *) rc=1;; esac
+    done
+    git -C /repo worktree remove --force $wt; rm -rf $wt; git -C /repo worktree prune
+    exit $rc
+fi
 for f in regress/*.replay; do
     out=$(bin/replay "$f" 2>&1 | tail -1)
     echo "$f: $out"
